@@ -190,7 +190,7 @@ def _read_block(lines, i):
     return out, i
 
 
-def weave(unit_path, repo, verif_root):
+def weave(unit_path, repo, verif_root, vacuity=False):
     lines = open(unit_path).read().split("\n")
     chunks, log, extracted = [], [], []
     sources = {}
@@ -262,6 +262,7 @@ def weave(unit_path, repo, verif_root):
                     opts["anchors"].append((mt.group(1), int(mt.group(2)), mt.group(3).replace('\\"', '"'), blk))
                 else:
                     raise LostAnchor("%s:%d: unknown directive %s" % (unit_path, i, d))
+            opts["vacuity"] = vacuity
             chunks += _do_extract(repo, relfile, selector, opts, sources, log, extracted)
         else:
             chunks.append(Chunk(ln, {"kind": "unit", "line": i + 1}))
@@ -387,6 +388,13 @@ def _do_extract(repo, relfile, selector, opts, sources, log, extracted):
             p = body.find("\n", pos)
             p = len(body) if p < 0 else p + 1
         inserts.append((p, "\n".join(blk) + "\n", "%s:%s" % (kind, sub[:30])))
+    if opts.get("vacuity") and not opts["external_body"]:
+        # vacuity probes: the start of the body and of every loop body must be reachable with a
+        # consistent context, i.e. `assert(false)` there must FAIL
+        loops_v = find_loops(body, mb)
+        pts = [(1, "body")] + [(l[1] + 1, "loop%d" % (k + 1)) for k, l in enumerate(loops_v)]
+        for pos_v, where_v in pts:
+            inserts.append((pos_v, " proof { assert(false); } /*VACUITY-PROBE %s @ %s*/\n" % (name, where_v), "probe"))
     inserts.sort(key=lambda x: x[0])
     last = 0
     for pos, txt, part in inserts:
@@ -396,20 +404,12 @@ def _do_extract(repo, relfile, selector, opts, sources, log, extracted):
         chunks.append(_BodyChunk(txt, origin(part)))
         last = pos
     chunks.append(_BodyChunk(body[last:], origin("body")))
-    # merge body chunks so that line accounting stays exact: concatenate raw
     merged, buf = [], []
     for c in chunks:
         if isinstance(c, _BodyChunk):
             buf.append(c)
         else:
             merged.append(c)
-    # body chunks may split in the middle of a line; assemble them as one text but keep
-    # per-line origins
-    text_all = "".join(c.raw for c in buf)
-    # line origins
-    line_orig = []
-    for c in buf:
-        pass
     merged.append(_assemble_body(buf))
     flat = []
     for c in merged:
